@@ -15,10 +15,10 @@ Proved for all inputs: completeness and soundness of the recursive pair; that th
 simulation (`sim`), then for Go's bit-twiddled position numbers (`pos|1`, `pos>>1|msb`,
 `(pos^msb)<<1`, `inDeadZone`) by showing that they are the image of tree positions under
 `enc (h, i) = 2^(D+1) − 2^(D+1−h) + i` (`EncLaws`, `encLaws`).  Position arithmetic is on `Nat`;
-Go's `uint32` agrees for transaction counts up to 2^30 (assumption; `2·msb` must not wrap).
-What is *not* proved and is only tied by differential execution: the flag byte packing
-(`packFlags`/`unpackFlags`), and that `GetTxMerkleBranch`'s node table lookups (`branchOf`)
-produce the abstract branch of `C08_branch` (claim for that part: partial).
+Go's `uint32` agrees for transaction counts up to 2^30; since the `fix:` commit 4d1f67bc the code
+rejects counts above `pact.MaxTxPerBlock` (`maxTx`, 10000 by default) first, and so does the model.
+What is *not* proved and is only tied by differential execution: that `GetTxMerkleBranch`'s node
+table lookups (`branchOf`) produce the abstract branch of `C08_branch` (claim for that part: partial).
 -/
 namespace ElaVerif.C08
 open ElaVerif.Merkle ElaVerif.PMT
@@ -40,11 +40,11 @@ theorem build_bits_ne_nil (H : α → α → α) (txs : List α) (matched : List
     parsing the partial tree that `TraverseAndBuild` emits — with any flag padding `pad` after it —
     against the block's merkle root succeeds and returns exactly the matched transactions, in block
     order. -/
-theorem C08_complete {H : α → α → α} (hinj : Injective2 H) (txs : List α) (matched : List Bool)
-    (hnd : txs.Nodup) (hne : txs ≠ []) (pad : List Bool) :
+theorem C08_complete {H : α → α → α} (hinj : Injective2 H) (maxTx : Nat) (txs : List α) (matched : List Bool)
+    (hnd : txs.Nodup) (hne : txs ≠ []) (hmax : txs.length ≤ maxTx) (pad : List Bool) :
     ∃ root hs, calcHash H txs (treeHeight txs.length) 0 = some root ∧
       (build H txs matched (treeHeight txs.length) 0).2 = hs.map some ∧
-      (extractTop H txs.length root ((build H txs matched (treeHeight txs.length) 0).1 ++ pad) hs).ids =
+      (extractTop H maxTx txs.length root ((build H txs matched (treeHeight txs.length) 0).1 ++ pad) hs).ids =
         .ok (matchedList txs matched) := by
   have hn : 0 < txs.length := List.length_pos_iff.mpr hne
   obtain ⟨x, hs, hc, hb, he⟩ := extract_build hinj txs matched hnd (treeHeight txs.length) 0
@@ -54,78 +54,97 @@ theorem C08_complete {H : α → α → α} (hinj : Injective2 H) (txs : List α
   rw [List.append_nil] at hes
   unfold extractTop
   have hn' : ¬ txs.length = 0 := by omega
+  have hm' : ¬ txs.length > maxTx := by omega
   have hbits : ((build H txs matched (treeHeight txs.length) 0).1 ++ pad).isEmpty = false := by
     have := build_bits_ne_nil H txs matched (treeHeight txs.length) 0
     cases hb' : (build H txs matched (treeHeight txs.length) 0).1 with
     | nil => exact absurd hb' this
     | cons _ _ => simp
-  simp only [hn', if_false, hbits, hes, h1, if_true, PRes.ids, h2, matchedIds_top]
+  simp only [hn', if_false, hm', hbits, hes, h1, if_true, PRes.ids, h2, matchedIds_top]
   simp
 
 /-- **Soundness** (recursive parser, honest transaction count).  If parsing an *arbitrary* message
     succeeds against the merkle root of `txs`, every returned id is a transaction of the block and
     they come in block order (`Sublist`). -/
-theorem C08_sound {H : α → α → α} (hinj : Injective2 H) (txs : List α) (root : α)
+theorem C08_sound {H : α → α → α} (hinj : Injective2 H) (maxTx : Nat) (txs : List α) (root : α)
     (hroot : calcHash H txs (treeHeight txs.length) 0 = some root)
     (bits : List Bool) (hashes ids : List α)
-    (hok : (extractTop H txs.length root bits hashes).ids = .ok ids) : ids.Sublist txs := by
+    (hok : (extractTop H maxTx txs.length root bits hashes).ids = .ok ids) : ids.Sublist txs := by
   unfold extractTop at hok
   by_cases hn : txs.length = 0
   · simp [hn, PRes.ids] at hok
-  · by_cases hb : bits.isEmpty = true
-    · simp [hn, hb, PRes.ids] at hok
-    · simp only [hn, if_false, hb, Bool.false_eq_true] at hok
-      cases he : extract H txs.length (treeHeight txs.length) 0 bits hashes with
-      | error e => simp [he, PRes.ids] at hok
-      | ok s =>
-        simp only [he] at hok
-        by_cases hr : s.hash = root
-        · simp only [hr, if_true, PRes.ids, PRes.ok.injEq] at hok
-          subst hok
-          have := extract_sound hinj txs _ 0 bits hashes s root he hroot hr
-          refine this.trans ?_
-          unfold seg
-          simp only [Nat.zero_mul, List.drop_zero]
-          exact List.take_sublist _ _
-        · simp [hr, PRes.ids] at hok
+  · by_cases hm : txs.length > maxTx
+    · simp [hn, hm, PRes.ids] at hok
+    · by_cases hb : bits.isEmpty = true
+      · simp [hn, hm, hb, PRes.ids] at hok
+      · simp only [hn, if_false, hm, hb, Bool.false_eq_true] at hok
+        cases he : extract H txs.length (treeHeight txs.length) 0 bits hashes with
+        | error e => simp [he, PRes.ids] at hok
+        | ok s =>
+          simp only [he] at hok
+          by_cases hr : s.hash = root
+          · simp only [hr, if_true, PRes.ids, PRes.ok.injEq] at hok
+            subst hok
+            have := extract_sound hinj txs _ 0 bits hashes s root he hroot hr
+            refine this.trans ?_
+            unfold seg
+            simp only [Nat.zero_mul, List.drop_zero]
+            exact List.take_sublist _ _
+          · simp [hr, PRes.ids] at hok
 
 /-- **The loop computes the specification.**  The stack machine of `CheckMerkleBlock` with Go's
     position arithmetic returns exactly what the recursive parser returns, for every message
     (valid or not) and every fuel above some bound. -/
-theorem C08_loop_refines (H : α → α → α) (n : Nat) (root : α) (bits : List Bool) (hashes : List α) :
-    ∃ k, ∀ f, (machine (goOps n) H n root bits hashes (k + f)).ids =
-      (extractTop H n root bits hashes).ids :=
-  go_machine_refines H n root bits hashes
+theorem C08_loop_refines (H : α → α → α) (maxTx n : Nat) (root : α) (bits : List Bool) (hashes : List α) :
+    ∃ k, ∀ f, (machine (goOps n) H maxTx n root bits hashes (k + f)).ids =
+      (extractTop H maxTx n root bits hashes).ids :=
+  go_machine_refines H maxTx n root bits hashes
 
 /-- the same on (height, index) positions (the control-structure half of the proof) -/
-theorem C08_loop_refines_tree (H : α → α → α) (n : Nat) (root : α) (bits : List Bool) (hashes : List α) :
-    ∃ k, ∀ f, (machine (treeOps n) H n root bits hashes (k + f)).ids =
-      (extractTop H n root bits hashes).ids :=
-  machine_refines H n root bits hashes
+theorem C08_loop_refines_tree (H : α → α → α) (maxTx n : Nat) (root : α) (bits : List Bool) (hashes : List α) :
+    ∃ k, ∀ f, (machine (treeOps n) H maxTx n root bits hashes (k + f)).ids =
+      (extractTop H maxTx n root bits hashes).ids :=
+  machine_refines H maxTx n root bits hashes
 
 /-- **Round trip through the real loop.**  What the node builds, `CheckMerkleBlock`'s loop turns back
     into exactly the matched transactions, in block order. -/
-theorem C08_roundtrip {H : α → α → α} (hinj : Injective2 H) (txs : List α) (matched : List Bool)
-    (hnd : txs.Nodup) (hne : txs ≠ []) (pad : List Bool) :
+theorem C08_roundtrip {H : α → α → α} (hinj : Injective2 H) (maxTx : Nat) (txs : List α) (matched : List Bool)
+    (hnd : txs.Nodup) (hne : txs ≠ []) (hmax : txs.length ≤ maxTx) (pad : List Bool) :
     ∃ root hs k, calcHash H txs (treeHeight txs.length) 0 = some root ∧
       (build H txs matched (treeHeight txs.length) 0).2 = hs.map some ∧
-      ∀ f, (machine (goOps txs.length) H txs.length root
+      ∀ f, (machine (goOps txs.length) H maxTx txs.length root
               ((build H txs matched (treeHeight txs.length) 0).1 ++ pad) hs (k + f)).ids =
             .ok (matchedList txs matched) := by
-  obtain ⟨root, hs, h1, h2, h3⟩ := C08_complete hinj txs matched hnd hne pad
-  obtain ⟨k, hk⟩ := go_machine_refines H txs.length root
+  obtain ⟨root, hs, h1, h2, h3⟩ := C08_complete hinj maxTx txs matched hnd hne hmax pad
+  obtain ⟨k, hk⟩ := go_machine_refines H maxTx txs.length root
     ((build H txs matched (treeHeight txs.length) 0).1 ++ pad) hs
   exact ⟨root, hs, k, h1, h2, fun f => (hk f).trans h3⟩
 
+/-- **Round trip on the wire form**: the flag *bytes* `NewMerkleBlock` packs (LSB first, zero padded),
+    unpacked bit by bit as the loop reads them, with the hashes `TraverseAndBuild` emitted, make
+    `CheckMerkleBlock`'s loop return exactly the matched transactions. -/
+theorem C08_roundtrip_bytes {H : α → α → α} (hinj : Injective2 H) (maxTx : Nat) (txs : List α)
+    (matched : List Bool) (hnd : txs.Nodup) (hne : txs ≠ []) (hmax : txs.length ≤ maxTx) :
+    ∃ root hs k, calcHash H txs (treeHeight txs.length) 0 = some root ∧
+      (build H txs matched (treeHeight txs.length) 0).2 = hs.map some ∧
+      ∀ f, (machine (goOps txs.length) H maxTx txs.length root
+              (unpackFlags (packFlags ((build H txs matched (treeHeight txs.length) 0).1.length + 1)
+                (build H txs matched (treeHeight txs.length) 0).1)) hs (k + f)).ids =
+            .ok (matchedList txs matched) := by
+  obtain ⟨pad, hp⟩ := unpack_pack ((build H txs matched (treeHeight txs.length) 0).1.length + 1)
+    (build H txs matched (treeHeight txs.length) 0).1 (by omega)
+  rw [hp]
+  exact C08_roundtrip hinj maxTx txs matched hnd hne hmax pad
+
 /-- **Soundness of the real loop**: whatever message makes `CheckMerkleBlock`'s loop succeed against
     the block's merkle root (honest count) yields only transactions of the block, in block order. -/
-theorem C08_loop_sound {H : α → α → α} (hinj : Injective2 H) (txs : List α) (root : α)
+theorem C08_loop_sound {H : α → α → α} (hinj : Injective2 H) (maxTx : Nat) (txs : List α) (root : α)
     (hroot : calcHash H txs (treeHeight txs.length) 0 = some root)
     (bits : List Bool) (hashes ids : List α) :
-    ∃ k, ∀ f, (machine (goOps txs.length) H txs.length root bits hashes (k + f)).ids = .ok ids →
+    ∃ k, ∀ f, (machine (goOps txs.length) H maxTx txs.length root bits hashes (k + f)).ids = .ok ids →
       ids.Sublist txs := by
-  obtain ⟨k, hk⟩ := go_machine_refines H txs.length root bits hashes
-  exact ⟨k, fun f hok => C08_sound hinj txs root hroot bits hashes ids ((hk f).symm.trans hok)⟩
+  obtain ⟨k, hk⟩ := go_machine_refines H maxTx txs.length root bits hashes
+  exact ⟨k, fun f hok => C08_sound hinj maxTx txs root hroot bits hashes ids ((hk f).symm.trans hok)⟩
 
 /-! ## non-vacuity and the role of the hypotheses -/
 
@@ -152,18 +171,18 @@ def exHs : List FT := [.leaf 1, .leaf 2, .node (.leaf 3) (.leaf 4), .leaf 5]
 
 example : calcHash FT.node exTxs 3 0 = some exRoot := by decide
 example : (build FT.node exTxs exMatched 3 0).2 = exHs.map some := by decide
-example : (extractTop FT.node 5 exRoot (build FT.node exTxs exMatched 3 0).1 exHs).ids =
+example : (extractTop FT.node 10000 5 exRoot (build FT.node exTxs exMatched 3 0).1 exHs).ids =
     .ok [.leaf 2, .leaf 5] := by decide
-example : (machine (treeOps 5) FT.node 5 exRoot (build FT.node exTxs exMatched 3 0).1 exHs 100).ids =
+example : (machine (treeOps 5) FT.node 10000 5 exRoot (build FT.node exTxs exMatched 3 0).1 exHs 100).ids =
     .ok [.leaf 2, .leaf 5] := by decide
-example : (machine (goOps 5) FT.node 5 exRoot (build FT.node exTxs exMatched 3 0).1 exHs 100).ids =
+example : (machine (goOps 5) FT.node 10000 5 exRoot (build FT.node exTxs exMatched 3 0).1 exHs 100).ids =
     .ok [.leaf 2, .leaf 5] := by decide
 
 /-- `Nodup` is needed for completeness: with a repeated transaction id the sibling check
     ("DUP HASH CRASH") rejects the honest proof. -/
 example : calcHash FT.node [.leaf 1, .leaf 1] 1 0 = some (.node (.leaf 1) (.leaf 1)) ∧
     (build FT.node [.leaf 1, .leaf 1] [true, false] 1 0).2 = [some (.leaf 1), some (.leaf 1)] ∧
-    (extractTop FT.node 2 (.node (.leaf 1) (.leaf 1)) (build FT.node [.leaf 1, .leaf 1] [true, false] 1 0).1
+    (extractTop FT.node 10000 2 (.node (.leaf 1) (.leaf 1)) (build FT.node [.leaf 1, .leaf 1] [true, false] 1 0).1
       [.leaf 1, .leaf 1]).ids = .err .dup := by
   refine ⟨by decide, by decide, by decide⟩
 
@@ -215,7 +234,7 @@ example : idealSibs FT.node exTxs 3 0 4 =
 theorem C08_sound_claimed_count_false :
     ¬ (∀ (txs : List FT) (claimed : Nat) (root : FT) (bits : List Bool) (hashes ids : List FT),
         calcHash FT.node txs (treeHeight txs.length) 0 = some root →
-        (extractTop FT.node claimed root bits hashes).ids = .ok ids → ∀ id ∈ ids, id ∈ txs) := by
+        (extractTop FT.node 10000 claimed root bits hashes).ids = .ok ids → ∀ id ∈ ids, id ∈ txs) := by
   intro h
   have := h [.leaf 1, .leaf 2, .leaf 3, .leaf 4] 2
     (.node (.node (.leaf 1) (.leaf 2)) (.node (.leaf 3) (.leaf 4)))
